@@ -5,6 +5,10 @@
 
 #include "c10_iface.hpp"
 
+#include <fcppt/bit/mask.hpp>
+#include <fcppt/bit/shift_count.hpp>
+#include <fcppt/bit/shifted_mask.hpp>
+#include <fcppt/bit/test.hpp>
 #include <fcppt/container/bitfield/comparison.hpp>
 #include <fcppt/container/bitfield/hash.hpp>
 #include <fcppt/container/bitfield/init.hpp>
@@ -124,6 +128,20 @@ struct vi final : val
     nowrite_ok = b == before;
     p = v;
   }
+  bool proxy_sees_write(unsigned i, bool v) override
+  {
+    ref p{b[en(i)]};
+    b.set(en(i), v);
+    return p;
+  }
+  bool const_proxy_rebind_read(unsigned i, unsigned j) const override
+  {
+    typename bf::const_reference p{b[en(i)]};
+    typename bf::const_reference q{b[en(j)]};
+    p = q;
+    typename bf::const_reference r{p};
+    return r;
+  }
   void or_idx_assign(unsigned i, bool &ret_ok) override
   {
     bf &r = (b |= en(i));
@@ -198,6 +216,18 @@ struct fac final : factory
     return v::mk(bf(car));
   }
 };
+
+template <typename W>
+ull shifted_mask_for(unsigned k)
+{
+  return static_cast<ull>(fcppt::bit::shifted_mask<W>(static_cast<fcppt::bit::shift_count>(k)).get());
+}
+
+template <typename W>
+bool bit_test_for(ull x, unsigned k)
+{
+  return fcppt::bit::test(static_cast<W>(x), fcppt::bit::shifted_mask<W>(static_cast<fcppt::bit::shift_count>(k)));
+}
 
 template <typename W>
 factory const *factory_for(unsigned n)
